@@ -210,6 +210,28 @@ Proof.
   rewrite Jk at 1. rewrite Jq at 1. apply join_prefix_boundary; assumption.
 Qed.
 
+(* a key written with a trailing slash ("lib/") already ends on a component boundary *)
+Definition ends_slash (k : str) : bool := match rev k with c :: _ => N.eqb c slash | [] => false end.
+Definition on_boundary_or_slash (k q : str) : bool := ends_slash k || on_boundary k q.
+
+Lemma split_aux_trailing_slash s : forall cur, In [] (split_aux cur (s ++ [slash])).
+Proof.
+  induction s as [|c s IH]; intros cur.
+  - cbn [app split_aux]. change (N.eqb slash slash) with true. cbv iota. right. left. reflexivity.
+  - cbn [app split_aux]. destruct (N.eqb c slash); [right; apply IH|apply IH].
+Qed.
+
+Lemma wf_no_trailing_slash k : wf_path k -> ends_slash k = false.
+Proof.
+  intros [_ Hk]. unfold ends_slash. destruct (rev k) as [|c r] eqn:E; [reflexivity|].
+  destruct (N.eqb_spec c slash) as [->|]; [|reflexivity]. exfalso. apply Hk.
+  assert (Ek : k = rev r ++ [slash]) by (rewrite <- (rev_involutive k), E; reflexivity).
+  rewrite Ek. unfold comps. apply split_aux_trailing_slash.
+Qed.
+
+Lemma on_boundary_or_slash_wf k q : wf_path k -> on_boundary_or_slash k q = on_boundary k q.
+Proof. intros H. unfold on_boundary_or_slash. rewrite (wf_no_trailing_slash k H). reflexivity. Qed.
+
 (* ---------- lexicographic order on byte strings (Rust's String Ord) and sorted sets ---------- *)
 Fixpoint lex_ltb (a b : str) : bool :=
   match a, b with
